@@ -81,8 +81,15 @@ def run(ctx):
         ctx.notes.append("design-level %s (not a C11 clause): see C12/C13" % res["violated"])
     else:
         ctx.add_mc("Subscription (all txs, 2 plans, 2 buyers)", res)
+    # reachability query: TLC constructs the shortest history with a month whose tracked-CU entries sum up to 0
+    # (1-CU relay with a QoS report scoring 0); continued past the cu-tracker timer, in both fee modes
+    r3, c3 = sl.mc(ctx, "Subscription_cov3.cfg", timeout=600)
+    if not c3:
+        raise vlib.Infra("coverage target 'month with tracked-CU entries summing up to 0' not reachable in the model")
+    adv = lambda a, k: {"a": a, "cr": "", "c": "", "p": "", "d": 0, "f": False, "n": k}  # noqa: E731
+    cand3 = c3 + [adv("stale", 219), adv("block", 1)]
     n = ctx.pick(50, 300)
-    need = {"paid": 15, "zero-cu": 10, "multi-provider": 5, "sub-gone": 1, "relay:ok": 100}
+    need = {"paid": 15, "zero-cu": 10, "multi-provider": 5, "sub-gone": 1, "relay:ok": 100, "zero-cu-with-entries": 2}
     # "capped" payouts (credit above 100 per tracked CU) need a single 10-CU relay in a month: rare, reported, not required
     pay = sl.collections.Counter()
     behs, nrows = [], 0
@@ -90,6 +97,7 @@ def run(ctx):
         new = sl.sim(ctx, "Subscription_simpay.cfg", num=n, depth=16, tag="simpay%d" % rnd, seed=ctx.seed + 7919 * rnd)[:ctx.pick(220, 1200)]
         if rnd == 0:
             ctx.sample(new[0])
+            new = [cand3, cand3] + new
         modes = [i % 2 for i in range(len(new))]
         finding, rows = _check(ctx, new, modes, "all%d" % rnd)
         if finding is not None:
@@ -114,6 +122,7 @@ def run(ctx):
                         pay["capped"] += c["credit"] // total > 100
                     else:
                         pay["zero-cu"] += 1
+                        pay["zero-cu-with-entries"] += len(tc) > 0
                         pay["sub-gone"] += not prev["cs"]["c1"]["subn"]["on"]
             prev = r
         behs += new
